@@ -36,7 +36,8 @@ CLAIMED = {
              'translation, multiplied by det M under any linear map (rotation, mirror, scale k^2) and equal to the triangle-fan and '
              'trapezoid definitions; Face3D.area is proved to be |Newell vector . normal|/2 for any orthonormal plane frame; the generated mesh '
              'kernels: Mesh2D._get_area is the absolute shoelace value, a plane-embedded 3D triangle has its planar area, the diagonal-cut quad '
-             'centroid is the polygon centroid. Perimeter, '
+             'centroid is the polygon centroid; for the hand model HoleMerge.v of Polygon2D._merge_boundary_and_hole (run against it for every '
+             'bridge tried) the merged loop keeps the signed area sum boundary + hole(s) whatever vertices the bridge joins. Perimeter, '
              'centroids, holes, meshes, prism volumes and closed forms are searched against exact Fraction references.',
         note='Trusted: Coq kernel, py2coq, harness. Face3D model covers faces without holes (holes validated). Shoelace/Newell are the '
              'reference definition of area; sqrt-based lengths are validated only.',
@@ -212,13 +213,14 @@ CLAIMED = {
              'point, area = ratio x original when k*k == ratio, per-piece scaling totals k*k x total; (4) sub-rectangle layout (model '
              'with Python round-half-even, run against Face3D.sub_rects_from_rect_ratio): in every branch areas total ratio x parent, '
              'the array lies inside the parent, columns / rows do not overlap (ratio <= 0.95); the generated sub_rects_from_rect_ratio is run '
-             'against the same model inside Coq. Searched: Polygon2D.offset (convex, d '
+             'against the same model inside Coq; (5) the layout of sub_rects_from_rect_dimensions (hand model SubDims.v, run against the '
+             'implementation) lies inside the parent and does not overlap for every parameter value. Searched: Polygon2D.offset (convex, d '
              'up to 0.4 A/P; concave up to 0.2 x feature size; both windings): vertex count, orientation, parallel edges at distance '
              '|d| on the stated side; LineSegment2D / Polyline2D offsets; perimeter_core_by_offset with cw / ccw holes (area '
              'partition, quad shape, inside); sub_faces_by_ratio(_rectangle) on rect / L / gable / trapezoid / convex / holed walls in '
              'vertical, tilted, horizontal rational planes: total area = ratio x parent, plane, normal, inside boundary, outside '
              'holes, pairwise non-overlap (exact); sub_rects_from_rect_ratio / _dimensions incl. parameters at the edges of their ranges.',
-        note='Partial: global non-self-intersection of offsets, rectangle extraction and sub_rects_from_rect_dimensions are validated, '
+        note='Partial: global non-self-intersection of offsets and rectangle extraction are validated, '
              'not proved; trigonometric oracles are outside the offset kernel theorem (it takes cos/sin of the half angle as data). '
              'Trusted: Coq kernel, hand models + correspondence, py2coq (Polygon2D.scale), harness.',
         technique='machine-checked Coq proofs about hand-written executable models (vm_compute correspondence) and generated definitions; exact search'),
